@@ -131,6 +131,12 @@ def run(spec, res):
                 return
             res.hook('coherent.eval')
             bad = gen_ioapi.coherent(out)
+            if st.op == 'apply' and 'TSTEP' in st.meta.get('apply', {}):
+                # the known finding C10-apply-tstep-sdate: TFLAG was
+                # transformed as data (it may still look coherent when the
+                # first stamp survives, e.g. a cumulative sum); whatever
+                # follows inherits garbage time flags, so the program ends
+                st.meta['stop'] = True
             if bad:
                 cls = '+'.join(sorted({pclass(p) for p in bad}))
                 res.viol('incoherent-after:%s:%s' % (st.op, cls),
